@@ -1,0 +1,7 @@
+// Copyright (c) Tailscale Inc & AUTHORS
+// SPDX-License-Identifier: BSD-3-Clause
+
+// Package verifhook holds scheduling hooks used only by the deterministic
+// simulation harness. Without the "verif" build tag the package is empty and
+// nothing in the module imports it.
+package verifhook
